@@ -45,6 +45,7 @@ type vpWire struct {
 	onEvent  func(ev string) // optional, called WITHOUT the lock held? (called with lock held; keep it trivial)
 	readErr  error            // if set, returned by Read once input is exhausted instead of blocking
 	writeErrAfter int         // if >0: Write fails once more than this many bytes were written
+	closeErr error            // if set: Close closes the connection and reports this error
 	reads    int
 }
 
@@ -151,7 +152,7 @@ func (w *vpWire) Close() error {
 		w.outAtClose = w.out.Len()
 	}
 	w.cond.Broadcast()
-	return nil
+	return w.closeErr
 }
 
 func (w *vpWire) LocalAddr() net.Addr  { return w.local }
